@@ -24,10 +24,19 @@ def known_findings():
     return json.load(open(p))
 
 
-def sh(cmd, cwd=None, timeout=None, env=None):
+def _limits():
+    # one executor / harness process may not take the machine down: 40 GB address space
+    import resource
+    try:
+        resource.setrlimit(resource.RLIMIT_AS, (40 << 30, 40 << 30))
+    except (ValueError, OSError):
+        pass
+
+
+def sh(cmd, cwd=None, timeout=None, env=None, limit=False):
     t0 = time.time()
     try:
-        r = subprocess.run(cmd, cwd=cwd, env=env or goenv(), stdout=subprocess.PIPE, stderr=subprocess.STDOUT, timeout=timeout, text=True)
+        r = subprocess.run(cmd, cwd=cwd, env=env or goenv(), stdout=subprocess.PIPE, stderr=subprocess.STDOUT, timeout=timeout, text=True, preexec_fn=_limits if limit else None)
         return r.returncode, r.stdout, time.time() - t0
     except subprocess.TimeoutExpired as ex:
         out = ex.stdout if isinstance(ex.stdout, str) else (ex.stdout or b"").decode("utf8", "replace")
